@@ -118,6 +118,11 @@ func registerCompiledRoute(router *server.Router, route *ast.Route, bytecode []b
 
 // createCompiledRouteHandler creates an HTTP handler that executes compiled bytecode
 func createCompiledRouteHandler(route *ast.Route, bytecode []byte, wsHub *websocket.Hub) server.RouteHandler {
+	// The type definitions of the module this handler belongs to. Reading the
+	// package variable at request time made a running server validate bodies
+	// against the types of whatever module setupRoutes saw last - including a
+	// reload that was then rejected.
+	typeDefs := compiledTypeDefs
 	return func(ctx *server.Context) error {
 		// Create VM instance
 		vmInstance := vm.NewVM()
@@ -201,7 +206,7 @@ func createCompiledRouteHandler(route *ast.Route, bytecode []byte, wsHub *websoc
 		// does - for every request: an absent or non-object body is checked as
 		// an empty object, so a type with required fields is never bypassed by
 		// omitting the body or sending something that is not JSON.
-		if err := validateCompiledInput(route, bodyMap); err != nil {
+		if err := validateCompiledInputWith(route, bodyMap, typeDefs); err != nil {
 			return sendClientError(ctx, err.Error())
 		}
 		if bodyMap != nil {
@@ -814,6 +819,11 @@ func setCompiledTypeDefs(module *ast.Module) {
 // interpreter.go:558. Fields carrying a default are not treated as required,
 // so this does not reject bodies the interpreter would accept.
 func validateCompiledInput(route *ast.Route, body map[string]interface{}) error {
+	return validateCompiledInputWith(route, body, compiledTypeDefs)
+}
+
+// validateCompiledInputWith is validateCompiledInput against the given type definitions.
+func validateCompiledInputWith(route *ast.Route, body map[string]interface{}, typeDefs map[string]ast.TypeDef) error {
 	if route.InputType == nil {
 		return nil
 	}
@@ -821,7 +831,7 @@ func validateCompiledInput(route *ast.Route, body map[string]interface{}) error 
 	if !ok {
 		return nil
 	}
-	typeDef, exists := compiledTypeDefs[named.Name]
+	typeDef, exists := typeDefs[named.Name]
 	if !exists {
 		return nil
 	}
@@ -831,7 +841,7 @@ func validateCompiledInput(route *ast.Route, body map[string]interface{}) error 
 	}
 
 	checker := interpreter.NewTypeChecker()
-	checker.SetTypeDefs(compiledTypeDefs)
+	checker.SetTypeDefs(typeDefs)
 	if err := checker.ValidateObjectAgainstTypeDef(body, typeDef); err != nil {
 		return fmt.Errorf("input validation failed: %v", err)
 	}
